@@ -26,6 +26,10 @@ LEVEL = "model_checking"
 def call_direct(case):
     import mokapot.dataset as D
     raw = np.array(case["raw"], dtype=float) * case.get("scale", 1.0) + case.get("shift", 0.0)
+    if case.get("dtype") == "int64":
+        # an estimator whose decision function returns whole numbers of a large magnitude as an INTEGER array (distinct values 1000 apart
+        # around 2e9: still distinct in single precision, but arithmetic in single precision is off by up to a tenth of a unit)
+        raw = np.array(case["raw"], dtype=np.int64) * 1000 + 2_000_000_000
     tgt = np.array(case["tgt"], dtype=bool)
     thr = case["thr"][0] / case["thr"][1]
     n = len(raw)
@@ -107,6 +111,8 @@ def run(ctx):
     for k, p in enumerate(x for x in g.prints if x and x[0] == "CASE"):
         c = {"raw": p[2], "tgt": p[3], "thr": p[4], "api": "method" if k % 40 == 7 else "function",
              "scale": [1.0, 0.5, 4.0][k % 3], "shift": [0.0, -2.0, 1000000.0, -300000.0][k % 4]}
+        if k % 7 == 3 and c["api"] == "function":
+            c["dtype"] = "int64"
         direct.append(c)
     if len(direct) < 1000:
         raise MachineryError("only %d direct calibration cases generated" % len(direct))
